@@ -61,12 +61,13 @@ type vFaultyWriter struct {
 	calls    int
 	failCall int
 	short    bool
+	once     bool // only the failCall-th call fails; later calls succeed again
 	writes   []int
 }
 
 func (w *vFaultyWriter) Write(p []byte) (int, error) {
 	w.calls++
-	if w.failCall > 0 && w.calls >= w.failCall {
+	if w.failCall > 0 && w.calls >= w.failCall && !(w.once && w.calls > w.failCall) {
 		if w.short && w.calls == w.failCall {
 			n := len(p) * 3 / 4
 			w.buf.Write(p[:n])
@@ -99,6 +100,7 @@ func init() {
 			RFailAt   int    `json:"rfail_after"` // -1 = never
 			WFailCall int    `json:"wfail_call"`
 			WShort    bool   `json:"wshort"`
+			WOnce     bool   `json:"wonce"`
 			Bar       bool   `json:"bar"`
 			BarMax    int    `json:"bar_max"`
 		}
@@ -112,7 +114,7 @@ func init() {
 			return nil, err
 		}
 		rd := &vFaultyReader{data: data, chunk: a.Chunk, failCall: a.RFailCall, failAfter: a.RFailAt}
-		wr := &vFaultyWriter{failCall: a.WFailCall, short: a.WShort}
+		wr := &vFaultyWriter{failCall: a.WFailCall, short: a.WShort, once: a.WOnce}
 		var bar *progressbar.ProgressBar
 		if a.Bar {
 			bar = progressbar.NewOptions64(int64(a.BarMax), progressbar.OptionSetWriter(io.Discard))
